@@ -1,6 +1,7 @@
 """C18 - compiled kernels agree with their Python semantics: differential execution + bounds sanitizer + end-to-end."""
 import importlib
 import itertools
+import os
 import time
 
 import numpy as np
@@ -61,6 +62,19 @@ def cases(tier, rng):
         g = cards.rand_grid(rng)
         out.append(dict(id=f"c18-e2e-{i}", mode="e2e", kind=cards.pick(rng, cfg["kinds"]), heavy=cards.pick(rng, ["total", "light", "charm"]), grid=g,
                         points=cards.rand_points(rng, g["xgrid"], n=2, q2lo=3.0, q2hi=3e3, xmax=0.7), **cfg))  # fmt: skip
+    # e2e lattice: one small NLO card per (scheme, process, kind, heavyness) cell, so that every Python-level coefficient-function
+    # builder (which may hand a compiled dispatcher something it only accepts when interpreted) is executed in both modes
+    cells = [(sch, proc, kind, heavy) for sch in cards.SCHEMES for proc in ("EM", "NC", "CC") for kind in (("F2", "FL", "F3", "g1") if proc == "NC" else ("F2", "FL", "F3") if proc == "CC" else ("F2", "FL"))
+             for heavy in ("total", "light", "charm", "bottom")]  # fmt: skip
+    pick = [int(j) for j in rng.permutation(len(cells))[: len(cells)]]
+    for j in sorted(pick):
+        sch, proc, kind, heavy = cells[j]
+        pto = 1 if (tier == "quick" or j % 3) else 2
+        if kind == "g1" and sch in ("FFN0", "FONLL-FFN0") and pto == 2:
+            pto = 1
+        out.append(dict(id=f"c18-e2e-cell{j}", mode="e2e", kind=kind, heavy=heavy, grid=dict(xgrid=cards.grid(4, 3, x_min=1e-3), deg=3, is_log=True),
+                        points=[dict(x=float(rng.uniform(0.05, 0.5)), Q2=cards.logu(rng, 10.0, 300.0), cls="bulk")],
+                        theory=dict(PTO=pto, FNS=sch, NfFF=int(cards.pick(rng, [3, 4]))), obs=dict(prDIS=proc, ProjectileDIS="electron" if proc != "CC" else cards.pick(rng, ["neutrino", "positron"])), kinds=[kind]))  # fmt: skip
     # anchors: the target-mass-correction kernels (h2, g2, h3, k2) are only reached with TMC on, k2 only by g1 in exact mode
     k = 0
     for kind in ("F2", "FL", "F3", "g1"):
@@ -72,6 +86,24 @@ def cases(tier, rng):
             out.append(dict(id=f"c18-brun-tmc{k}", mode="bounds-run", **base))
             out.append(dict(id=f"c18-e2e-tmc{k}", mode="e2e", **base))
             k += 1
+            if tier == "thorough" or os.environ.get("VERIF_MEMCHECK"):
+                out.append(dict(id=f"c18-vg-tmc{k}", mode="memcheck", **base))
+    # valgrind memcheck over whole production-mode runs (thorough tier: ~10-15 min each, run beside the other pools): the TMC anchors
+    # above plus one small card per kernel family
+    if tier == "thorough" or os.environ.get("VERIF_MEMCHECK"):
+        g = dict(xgrid=cards.grid(5, 4, x_min=1e-3), deg=3, is_log=True)
+        for j, (kind, heavy, proc, proj, th_) in enumerate((
+            ("F2", "total", "CC", "neutrino", dict(PTO=1, FNS="FFNS", NfFF=4)),
+            ("F3", "charm", "CC", "antineutrino", dict(PTO=1, FNS="FONLL-FFN0", NfFF=3)),
+            ("F2", "total", "NC", "electron", dict(PTO=2, FNS="ZM-VFNS", NfFF=4)),
+            ("FL", "charm", "NC", "electron", dict(PTO=2, FNS="FFNS", NfFF=3)),
+            ("F2", "bottom", "NC", "positron", dict(PTO=2, FNS="FONLL-FFN0", NfFF=4)),
+            ("g1", "total", "NC", "electron", dict(PTO=2, FNS="ZM-VFNS", NfFF=5)),
+            ("F3", "light", "NC", "electron", dict(PTO=3, FNS="ZM-VFNS", NfFF=4)),
+            ("F2", "charm", "NC", "electron", dict(PTO=1, FNS="FFNS", NfFF=3, IC=1)),
+        )):  # fmt: skip
+            out.append(dict(id=f"c18-vg-{j}", mode="memcheck", kind=kind, heavy=heavy, grid=g, points=[dict(x=float(rng.uniform(0.02, 0.4)), Q2=cards.logu(rng, 8.0, 300.0), cls="bulk")],
+                            theory=dict(th_, RenScaleVar=True, FactScaleVar=True), obs=dict(prDIS=proc, ProjectileDIS=proj), kinds=[kind]))  # fmt: skip
     n = 40 if tier == "quick" else 1500
     for i in range(n):
         cfg = cards.rand_config(rng, ptos=(0, 1, 2, 3), sv=True)
@@ -293,6 +325,11 @@ def run_full(case):
     except (ValueError, NotImplementedError) as e:
         # a rejection of the request (C16 judges those): for e2e both executions must agree on it
         return dict(status="held", raised=f"{type(e).__name__}: {str(e)[:80]}", compared=0, classes=[case["mode"]], probes=dict(bounds_evals=1))
+    except Exception as e:  # noqa: BLE001
+        if case["mode"] == "e2e":
+            # any other failure is an outcome too: a typing error of a compiled dispatcher exists in one execution mode only
+            return dict(status="held", raised=f"{type(e).__name__}: {str(e)[:80]}", compared=0, classes=["e2e"])
+        raise
     if case["mode"] == "bounds-run":
         return dict(violations=[], compared=1, nontrivial=[f"brun|{case['kind']}|{case['obs']['prDIS']}|{th['FNS']}|pto{th['PTODIS']}"], classes=["bounds-run"], probes=dict(bounds_evals=1),
                     sample=dict(obs=name, scheme=th["FNS"], PTO=th["PTODIS"], outcome="no out-of-bounds access reported"))  # fmt: skip
@@ -311,7 +348,7 @@ def run_case(case):
 # ----------------------------------------------------------------------------------------------------------- driver side
 def execute(cases, deadline, progress):
     results = [None] * len(cases)
-    idx = {m: [i for i, c in enumerate(cases) if c["mode"] == m] for m in ("diff", "bounds", "e2e", "bounds-run")}
+    idx = {m: [i for i, c in enumerate(cases) if c["mode"] == m] for m in ("diff", "bounds", "e2e", "bounds-run")}  # ("memcheck" cases: below)
     # python-mode end-to-end runs are the slowest: start them first, in their own pool, while the other pools work
     import threading
 
@@ -324,12 +361,33 @@ def execute(cases, deadline, progress):
 
     t = threading.Thread(target=py_part, daemon=True)
     t.start()
+    # valgrind memcheck programs: one subprocess each, started now, collected at the end (a time-out is inconclusive, never a violation)
+    from concurrent.futures import ThreadPoolExecutor
+
+    from .. import memcheck
+
+    mc_idx = [i for i, c in enumerate(cases) if c["mode"] == "memcheck"]
+    mc_pool = ThreadPoolExecutor(max_workers=max(1, min(len(mc_idx), env.NCPU))) if mc_idx else None
+    mc_fut = {}
+    if mc_idx and not memcheck.available():
+        for i in mc_idx:
+            results[i] = dict(status="inconclusive", reason="valgrind-not-installed")
+    elif mc_idx:
+        for i in mc_idx:
+            mc_fut[i] = mc_pool.submit(memcheck.run_one, cases[i], float(os.environ.get("VERIF_MEMCHECK_TIMEOUT", 2700)))
     half = max(2, env.NCPU // 2)
     for mode, pmode in (("e2e", "jit"), ("diff", "jit"), ("bounds", "bounds"), ("bounds-run", "bounds")):
         r = Pool(PROP, pmode, nworkers=half, case_timeout=600).map([cases[i] for i in idx[mode]], deadline, progress)
         for i, x in zip(idx[mode], r):
             results[i] = x
     t.join()
+    for i, f in mc_fut.items():
+        try:
+            results[i] = f.result()
+        except Exception as e:  # noqa: BLE001
+            results[i] = dict(status="inconclusive", reason=f"memcheck-harness:{type(e).__name__}")
+    if mc_pool is not None:
+        mc_pool.shutdown(wait=False)
     # compare the two executions of every e2e card
     for i in idx["e2e"]:
         a, b = results[i], py_res.get(i)
